@@ -5,6 +5,7 @@ import (
 	"go/ast"
 	"go/token"
 	"go/types"
+	"golang.org/x/tools/go/packages"
 	"regexp"
 	"sort"
 	"strings"
@@ -92,10 +93,34 @@ func uniqObjs(in []types.Object) []types.Object {
 	return out
 }
 
+var effectNameRe = regexp.MustCompile(`\(([^()\[\];]*)\)`)
+
+// effectKinds drops the target names from an effect signature: "join(edgeWeights);map-append(deps)" → "join();map-append()".
+func effectKinds(sig string) string {
+	parts := strings.Split(effectNameRe.ReplaceAllString(sig, "()"), ";")
+	sort.Strings(parts)
+	return strings.Join(parts, ";")
+}
+
+// shapeOfRanged: the selector path of a ranged expression without its root ("edge.to.weights" → ".to.weights";
+// a typed shape "(*T).to.weights" keeps the type).
+func shapeOfRanged(r string) string {
+	if strings.HasPrefix(r, "(") {
+		return r
+	}
+	if i := strings.Index(r, "."); i >= 0 {
+		return r[i:]
+	}
+	return r
+}
+
 func matchException(l *Loop, sig string) *Exception {
 	for i := range Exceptions {
 		e := &Exceptions[i]
-		if e.Func != "" && e.Func == l.FnName && e.Ranged == l.Ranged && e.Effects == sig {
+		// the reviewed fact is about one loop of one function: keyed by the function, the shape of what is ranged (the
+		// variable replaced by its type, so that renaming it changes nothing) and the kinds of effects (targets named
+		// in the signature are for the reader: a renamed field is the same effect, a new kind of effect is not)
+		if e.Func != "" && e.Func == l.FnName && (e.Ranged == l.Ranged || shapeOfRanged(e.Ranged) == shapeOfRanged(l.RangedShape)) && effectKinds(e.Effects) == effectKinds(sig) {
 			return e
 		}
 		if e.Func == "" && e.FuncPrefix != "" && strings.HasPrefix(l.FnName, e.FuncPrefix) && regexp.MustCompile(e.RangedRe).MatchString(l.Ranged) {
@@ -415,8 +440,99 @@ func (a *Analyzer) firstMention(info *types.Info, st ast.Stmt, obj types.Object)
 		return "bad"
 	case *ast.BlockStmt:
 		return a.firstInList(info, s.List, obj)
+	case *ast.ReturnStmt:
+		// return keys — from an unexported helper every caller of which sorts the result before anything else
+		if len(s.Results) == 1 {
+			if id, ok := ast.Unparen(s.Results[0]).(*ast.Ident); ok && objOf(info, id) == obj && a.callersSortResult(info, s) {
+				return "sorted"
+			}
+		}
 	}
 	return "bad"
+}
+
+// callersSortResult: the return statement belongs to an unexported function of the repository whose every call is
+// the right-hand side of `x := f(…)` / `x = f(…)` followed, before any other use of x, by a canonicalising sort of x.
+func (a *Analyzer) callersSortResult(info *types.Info, ret *ast.ReturnStmt) bool {
+	if a.P == nil || a.sortDepth > 1 {
+		return false
+	}
+	var pk *packages.Package
+	for _, cand := range a.P.Pkgs {
+		if cand.TypesInfo == info {
+			pk = cand
+		}
+	}
+	if pk == nil {
+		return false
+	}
+	var decl *ast.FuncDecl
+	for _, f := range pk.Syntax {
+		for _, d := range f.Decls {
+			if fd, ok := d.(*ast.FuncDecl); ok && fd.Body != nil && fd.Pos() <= ret.Pos() && ret.End() <= fd.End() {
+				decl = fd
+			}
+		}
+	}
+	if decl == nil || decl.Name.IsExported() {
+		return false
+	}
+	fn, _ := info.Defs[decl.Name].(*types.Func)
+	if fn == nil {
+		return false
+	}
+	calls, okAll := 0, true
+	for _, f := range pk.Syntax {
+		for _, d := range f.Decls {
+			caller, ok := d.(*ast.FuncDecl)
+			if !ok || caller.Body == nil {
+				continue
+			}
+			var stack []ast.Node
+			ast.Inspect(caller.Body, func(n ast.Node) bool {
+				if n == nil {
+					stack = stack[:len(stack)-1]
+					return false
+				}
+				stack = append(stack, n)
+				call, isCall := n.(*ast.CallExpr)
+				if !isCall {
+					return true
+				}
+				cf, _ := typeutil.Callee(info, call).(*types.Func)
+				if cf != nil && cf.Origin() != nil {
+					cf = cf.Origin()
+				}
+				if cf != fn {
+					return true
+				}
+				calls++
+				// the call must be the whole right-hand side of an assignment to one variable
+				if len(stack) < 2 {
+					okAll = false
+					return true
+				}
+				as, isAs := stack[len(stack)-2].(*ast.AssignStmt)
+				if !isAs || len(as.Lhs) != 1 || len(as.Rhs) != 1 || as.Rhs[0] != ast.Expr(call) {
+					okAll = false
+					return true
+				}
+				lid, isID := as.Lhs[0].(*ast.Ident)
+				if !isID {
+					okAll = false
+					return true
+				}
+				a.sortDepth++
+				form, _ := a.postUse(&Loop{Pkg: pk, decl: caller, Stmt: as}, objOf(info, lid))
+				a.sortDepth--
+				if form != "S" && form != "M" {
+					okAll = false
+				}
+				return true
+			})
+		}
+	}
+	return calls > 0 && okAll
 }
 
 func (a *Analyzer) firstInList(info *types.Info, list []ast.Stmt, obj types.Object) string {
@@ -490,6 +606,19 @@ var projections = map[string]string{
 // comparatorTotal accepts comparators every zero-returning path of which compares the elements
 // themselves (or an identity-like projection of them) as a last resort.
 func (a *Analyzer) comparatorTotal(info *types.Info, e ast.Expr) (bool, string) {
+	// the library's own three-way comparisons are total on their operand type
+	if fn, _ := calleeOfValue(info, ast.Unparen(e)).(*types.Func); fn != nil && fn.Pkg() != nil {
+		switch fn.Pkg().Path() + "." + fn.Name() {
+		case "strings.Compare", "cmp.Compare", "bytes.Compare":
+			return true, ""
+		}
+	}
+	// a comparator handed in as a parameter of an unexported helper: every caller's argument must be total
+	if id, isID := ast.Unparen(e).(*ast.Ident); isID && a.cmpDepth < 2 {
+		if ok, why, decided := a.parameterComparator(info, id); decided {
+			return ok, why
+		}
+	}
 	fl, ok := ast.Unparen(e).(*ast.FuncLit)
 	if !ok {
 		// a named comparator: a local variable holding one function literal, or a function of the repository
@@ -515,6 +644,94 @@ func (a *Analyzer) comparatorTotal(info *types.Info, e ast.Expr) (bool, string) 
 		return false, "comparator does not take two elements"
 	}
 	return a.comparatorPaths(info, fl, params)
+}
+
+// calleeOfValue: the function a function-valued expression denotes (strings.Compare, cmp.Compare[string], f).
+func calleeOfValue(info *types.Info, e ast.Expr) types.Object {
+	switch x := e.(type) {
+	case *ast.Ident:
+		return info.Uses[x]
+	case *ast.SelectorExpr:
+		return info.Uses[x.Sel]
+	case *ast.IndexExpr:
+		return calleeOfValue(info, ast.Unparen(x.X))
+	case *ast.IndexListExpr:
+		return calleeOfValue(info, ast.Unparen(x.X))
+	}
+	return nil
+}
+
+// parameterComparator: id is a parameter of an unexported repository function: the comparator is total when the
+// argument of every call of that function is. decided is false when id is not such a parameter.
+func (a *Analyzer) parameterComparator(info *types.Info, id *ast.Ident) (bool, string, bool) {
+	v, isVar := objOf(info, id).(*types.Var)
+	if !isVar || a.P == nil {
+		return false, "", false
+	}
+	var pk *packages.Package
+	for _, cand := range a.P.Pkgs {
+		if cand.TypesInfo == info {
+			pk = cand
+		}
+	}
+	if pk == nil {
+		return false, "", false
+	}
+	var decl *ast.FuncDecl
+	idx := -1
+	for _, f := range pk.Syntax {
+		for _, d := range f.Decls {
+			fd, ok := d.(*ast.FuncDecl)
+			if !ok || fd.Body == nil || fd.Type.Params == nil {
+				continue
+			}
+			k := 0
+			for _, fld := range fd.Type.Params.List {
+				for _, n := range fld.Names {
+					if info.Defs[n] == types.Object(v) {
+						decl, idx = fd, k
+					}
+					k++
+				}
+			}
+		}
+	}
+	if decl == nil || decl.Name.IsExported() || decl.Recv != nil {
+		return false, "", false
+	}
+	fn, _ := info.Defs[decl.Name].(*types.Func)
+	calls := 0
+	for _, f := range pk.Syntax {
+		bad := ""
+		ast.Inspect(f, func(n ast.Node) bool {
+			call, isCall := n.(*ast.CallExpr)
+			if !isCall || bad != "" {
+				return bad == ""
+			}
+			cf, _ := typeutil.Callee(info, call).(*types.Func)
+			if cf != nil && cf.Origin() != nil {
+				cf = cf.Origin()
+			}
+			if cf != fn || idx >= len(call.Args) {
+				return true
+			}
+			calls++
+			a.cmpDepth++
+			ok, why := a.comparatorTotal(info, call.Args[idx])
+			a.cmpDepth--
+			if !ok {
+				bad = "the comparator passed at " + a.pos(call.Pos()) + " is not provably total: " + why
+			}
+			return true
+		})
+		if bad != "" {
+			return false, bad, true
+		}
+	}
+	if calls == 0 {
+		return false, "the helper that receives the comparator is never called", true
+	}
+	return true, "", true
 }
 
 // namedComparator resolves an identifier used as a comparator to the function literal it stands for: the one
@@ -800,14 +1017,14 @@ func (a *Analyzer) loopCarriedReads(c *bodyCtx) {
 		case *ast.AssignStmt:
 			for _, lhs := range s.Lhs {
 				if id, ok := lhs.(*ast.Ident); ok && id.Name != "_" {
-					if o := objOf(c.info, id); o != nil && !c.locals[o] && s.Tok != token.DEFINE {
+					if o := c.obj(id); o != nil && !c.locals[o] && s.Tok != token.DEFINE {
 						written[o] = true
 					}
 				}
 			}
 		case *ast.IncDecStmt:
 			if id, ok := s.X.(*ast.Ident); ok {
-				if o := objOf(c.info, id); o != nil && !c.locals[o] {
+				if o := c.obj(id); o != nil && !c.locals[o] {
 					written[o] = true
 				}
 			}
@@ -828,7 +1045,7 @@ func (a *Analyzer) loopCarriedReads(c *bodyCtx) {
 			if !ok {
 				return true
 			}
-			o := objOf(c.info, id)
+			o := c.obj(id)
 			if o != nil && written[o] && o != self && !reported[o] {
 				reported[o] = true
 				l.Effects = append(l.Effects, "reads-modified("+o.Name()+")")
@@ -852,7 +1069,7 @@ func (a *Analyzer) loopCarriedReads(c *bodyCtx) {
 				var self types.Object
 				if i < len(s.Lhs) {
 					if id, ok := s.Lhs[i].(*ast.Ident); ok {
-						self = objOf(c.info, id)
+						self = c.obj(id)
 					}
 				}
 				check(r, self)
